@@ -123,6 +123,26 @@ class _ShapeModel:
         self.m.increment(self.shapes(rows))
 
 
+def _scale_equivariance(data, g, c, bad, tag):
+    """the same data in other units (x 1e-4, x 1e3): precision scales by 1 / unit^2, the mean by unit, distances are unit-free"""
+    from menpo.model import GMRFVectorModel
+
+    base = GMRFVectorModel(data.copy(), g, mode=c["mode"], sparse=False, bias=c["bias"])
+    P0 = np.asarray(base.precision, dtype=float)
+    q = data[:2] * 0.5 + 1.0
+    d0 = np.asarray(base.mahalanobis_distance(q), dtype=float)
+    for unit in (1e-4, 1e3):
+        for sparse in (True, False):
+            m = GMRFVectorModel(data * unit, g, mode=c["mode"], sparse=sparse, bias=c["bias"])
+            P = _dense(m.precision).astype(float)
+            if P.shape != P0.shape or not np.allclose(P * unit * unit, P0, rtol=1e-6, atol=1e-9 * np.abs(P0).max()):
+                bad.append((tag + ": the precision of the same data in units of %g is not the precision / unit^2 (%s storage)" % (unit, "sparse" if sparse else "dense"), {}, None))
+                continue
+            d = np.asarray(m.mahalanobis_distance(q * unit), dtype=float)
+            if not np.allclose(d, d0, rtol=1e-6, atol=1e-9):
+                bad.append((tag + ": Mahalanobis distances change with the unit of the data (%g)" % unit, {}, None))
+
+
 def check_incr(o):
     from menpo.model import GMRFModel, GMRFVectorModel
 
@@ -194,6 +214,8 @@ def check_blocks(o):
             a = slice(r["from"], r["to"])
             Q[a, a] = binv(np.cov(data[:, a], rowvar=0, bias=c["bias"]))
     mean = data.mean(axis=0)
+    if nc == 0:
+        _scale_equivariance(data, _graphs(nv, c["E"])[0][1], c, bad, "k=%d" % k)
     qs = np.vstack([mean + 1.0, mean * 0.5, np.arange(nv * k, dtype=float)])
     want_m = np.einsum("ij,jk,ik->i", qs - mean, Q, qs - mean)
     for gname, g in _graphs(nv, c["E"]):
